@@ -417,6 +417,25 @@ def mode_map_mstep(p):
                     if not np.array_equal(keep[f], getattr(st_obj, f)):
                         return {"field": f, "observed": np.asarray(getattr(st_obj, f)).tolist(), "expected": keep[f].tolist(),
                                 "what": "map_gmm_m_step modified the caller's statistics (%s)" % f}
+                if um and C > 1 and seed % 3 == 1 and not (p.get("fields") is not None and "means" not in p["fields"]):
+                    # a NON-default count threshold (the historic 1e-3) and a component whose responsibility mass is small but not
+                    # zero (between machine epsilon and the threshold): it counts as "no evidence" and keeps the prior mean
+                    st3 = g_.e_step(x, ubm)
+                    scale = 1e-5 / max(float(st3.n[-1]), 1e-300)
+                    st3.n[-1] *= scale
+                    st3.sum_px[-1] *= scale
+                    st3.sum_pxx[-1] *= scale
+                    st3d = {"n": st3.n.copy(), "sum_px": st3.sum_px.copy(), "sum_pxx": st3.sum_pxx.copy(), "t": st3.t}
+                    m3 = GMMMachine(C, trainer="map", ubm=ubm, update_means=True, update_variances=False, update_weights=False, map_relevance_factor=r, map_alpha=alpha,
+                                    mean_var_update_threshold=1e-3)
+                    with np.errstate(all="ignore"):
+                        g_.map_gmm_m_step(m3, st3, update_means=True, update_variances=False, update_weights=False, reynolds_adaptation=(r is not None),
+                                          relevance_factor=r, alpha=alpha, mean_var_update_threshold=1e-3)
+                    mu3 = ref_map_mstep(prior, st3d, True, False, False, r, alpha, 1e-3, m3.variance_thresholds)[1]
+                    if not close(m3.means, mu3, 1e-7):
+                        return {"field": "means", "observed": np.asarray(m3.means).tolist(), "expected": np.asarray(mu3).tolist(),
+                                "input": {"n": st3d["n"].tolist(), "mean_var_update_threshold": 1e-3, "relevance_factor": r, "alpha": alpha},
+                                "what": "MAP M-step with count threshold 1e-3: a component with responsibility mass 1e-5 (below the threshold) does not keep the prior mean"}
                 if um and not (p.get("fields") is not None and "means" not in p["fields"]):
                     if not close(m2.means, mu, 1e-7):
                         return {"field": "means", "observed": np.asarray(m2.means).tolist(), "expected": np.asarray(mu).tolist(),
